@@ -233,14 +233,20 @@ class QueryPlanner:
         # a reference to a CTE of this query is not a table of any database
         # (inside the CTE bodies themselves the same name still means the real table)
         cte_names = []
-        cte_body_nodes = set()
+        # names of the CTEs a node inside a CTE body can see: the ones defined before its own
+        cte_body_nodes = {}
         if isinstance(query, Select) and query.cte:
             cte_names = [
                 cte.name.parts[-1]
                 for cte in query.cte
             ]
-            for cte in query.cte:
-                query_traversal(cte.query, lambda node, **kwargs: cte_body_nodes.add(id(node)))
+            for i, cte in enumerate(query.cte):
+                visible = cte_names[:i]
+
+                def mark_body(node, visible=visible, **kwargs):
+                    cte_body_nodes.setdefault(id(node), visible)
+
+                query_traversal(cte.query, mark_body)
 
         def find_objects(node, is_table, **kwargs):
             if isinstance(node, Function):
@@ -249,7 +255,7 @@ class QueryPlanner:
 
             if is_table:
                 if isinstance(node, ast.Identifier):
-                    if len(node.parts) == 1 and node.parts[0] in cte_names and id(node) not in cte_body_nodes:
+                    if len(node.parts) == 1 and node.parts[0] in cte_body_nodes.get(id(node), cte_names):
                         return
                     integration, _ = self.resolve_database_table(node)
 
